@@ -89,12 +89,23 @@ def tlc_design(module, cfg, workers=16, timeout=900, coverage=False):
         shutil.rmtree(wd, ignore_errors=True)
 
 
-def tlc_generate(module, cfg, num, depth, seed, steps, extra_env=None):
-    """Simulate the design spec and collect the emitted behaviours (inputs only)."""
+def tlc_generate(module, cfg, num, depth, seed, steps, extra_env=None, cfg_subst=None):
+    """Simulate the design spec and collect the emitted behaviours (inputs only).
+    cfg_subst: textual substitutions applied to the .cfg (e.g. another Disabled set)."""
     wd = scratch("gen")
     gen = os.path.join(wd, "gen")
     os.makedirs(gen)
     try:
+        if cfg_subst:
+            spec_copy(wd)
+            with open(os.path.join(wd, cfg)) as fh:
+                c = fh.read()
+            for a, b in cfg_subst.items():
+                assert a in c, (a, cfg)
+                c = c.replace(a, b)
+            cfg = "sub_" + cfg
+            with open(os.path.join(wd, cfg), "w") as fh:
+                fh.write(c)
         env = dict(VERIF_GEN_DIR=gen, VERIF_GEN_STEPS=str(steps))
         if extra_env:
             env.update(extra_env)
